@@ -104,11 +104,13 @@ def cmd_check(args) -> int:
     for batch in plan["batches"]:
         mod = engine_module(batch["engine"])
         n = max(1, int(batch["n"] * scale))
+        if batch.get("indexed"):
+            n = batch["n"]  # a sweep is not scaled: every index is a fixed slice of a finite list
         tasks = [
             {
                 "engine": batch["engine"],
                 "seed": C.derive_seed(base, batch["engine"], batch.get("label", ""), i),
-                "kwargs": batch.get("kwargs", {}),
+                "kwargs": dict(batch.get("kwargs", {}), **({"index": i, "of": n} if batch.get("indexed") else {})),
             }
             for i in range(n)
         ]
